@@ -139,6 +139,10 @@ def sig_of(c, k, kind):
 
 
 def check(ctx, lentil, c, spec):
+    if c.get('scratch_shape'):
+        # (with a caller-supplied scratch buffer, dirty from earlier use)
+        c = dict(c, steps=[dict(s_) for s_ in c['steps']])
+        c['steps'][-1]['scratch'] = np.full(tuple(c['scratch_shape']), 2 - 3j, dtype=complex)
     real = ox.run_real(lentil, c)
     for (k, kind, detail) in ox.compare(c, spec['obs'], real):
         ctx.violation(sig_of(c, k, kind), dict(detail, step=k, steps=[s['op'] for s in c['steps']]),
@@ -183,7 +187,22 @@ def run(ctx):
     lentil = import_lentil()
     rng = random.Random(2002 + ctx.seed)
     n = 1400 if ctx.tier == 'quick' else 12000
-    cases = [gen_case(rng, ctx.tier) for _ in range(n)]
+    cases = []
+    for _ in range(n):
+        c0 = gen_case(rng, ctx.tier)
+        cases.append(c0)
+        if rng.random() < 0.12 and c0['dir'] == 'p2i':
+            # the SAME propagation (sampling, shapes) of the same aperture sitting elsewhere in a larger array: equal support shape, another
+            # offset - run right after its twin in the same process (a kernel or coordinate cache must know where the data sit)
+            import copy as _cp
+            c1 = _cp.deepcopy(c0)
+            a_ = c1['steps'][0]
+            if a_['amp']['k'] == 'a' and a_['opd']['k'] == 'a' and a_['mask']['k'] == 'none':
+                top, left = rng.choice(((1, 0), (0, 2), (2, 1), (0, 1)))
+                ncol = len(a_['amp']['v'][0])
+                a_['amp']['v'] = [[[] for _ in range(ncol + left)] for _ in range(top)] + [[[] for _ in range(left)] + row for row in a_['amp']['v']]
+                a_['opd']['v'] = [[0] * (ncol + left) for _ in range(top)] + [[0] * left + row for row in a_['opd']['v']]
+                cases.append(c1)
     # the FFT propagator on an input plane with MORE samples than its grid K = 1/alpha (an output pixel coarser than lambda*F#: samples
     # K apart alias onto each other, and the Fraunhofer sum over the whole input plane is what the statement asks for)
     for _ in range(40 if ctx.tier == 'quick' else 300):
@@ -201,7 +220,8 @@ def run(ctx):
         opd = np.array([[rng.randrange(N) for _ in range(n_)] for _ in range(m_)])
         sh = (rng.randint(1, max(1, Kr // os_)), rng.randint(1, max(1, Kc // os_)))
         cases.append({'N': N, 'wf': ox.wf(lam), 'dir': 'p2i-fft', 'thm': 'fold',
-                      'steps': [ox.plane('Pupil', amp=amp, opd=opd, px=dx, z=z), ox.fft(du, sh, os_)]})
+                      'steps': [ox.plane('Pupil', amp=amp, opd=opd, px=dx, z=z), ox.fft(du, sh, os_)],
+                      'scratch_shape': list(rng.choice(((), (Kr, Kc), (Kr + 3, Kc + 1))))})
     for i, c in enumerate(cases):
         c['id'] = i
     spec, results = ox.eval_spec(cases)
